@@ -10,17 +10,17 @@ NOTE_COMMON = ("Trusted: TLC 1.8 + CommunityModules; harness/vloop.py (determini
                "3.12 BaseEventLoop); harness/tlaval.py (parser for TLC values); the per-property driver/projection in "
                "props/. Exhaustive only within the stated constants.")
 
-CHECKS = {
-    "C17": dict(
-        spec="Queue",
-        text="Queue.tla models AsyncQueue + its consumer at the grain of one action per public call / loop wake-up; "
-             "TLC checks NoLoss, DrainedAll, AfterFinish, ReasonStable, GotAppendOnly and liveness EventuallyWoken over "
-             "all operation sequences within the bounds; EVERY edge of that state graph is replayed into the real "
-             "AsyncQueue (observation must equal the spec successor's obs, hidden buffer exposed by a Drain edge from "
-             "every state) and random length-40 histories recorded from the real queue are validated by QueueTrace.tla.",
-        technique="TLA+ spec + TLC exhaustive model checking; edge-complete graph replay into the implementation; batch trace validation",
-        design="5/C17"),
-}
+import importlib
+import sys
+
+sys.path.insert(0, ROOT)
+CHECKS = {}
+for _pid in ALL:
+    if os.path.exists(os.path.join(ROOT, "props", _pid.lower() + ".py")):
+        try:
+            CHECKS[_pid] = importlib.import_module("props." + _pid.lower()).MANIFEST
+        except AttributeError:
+            pass
 
 REASON_TODO = "check not built yet in this round; design in DESIGN.md section 5 (the property is in scope of the technique)"
 
